@@ -68,10 +68,10 @@ impl<T: ?Sized> Mutex<T> {
         if self.cnt.fetch_add(1, Ordering::SeqCst) == 0 {
             #[cfg(may_verif)]
             may_queue::verif::point(may_queue::verif::site::MUTEX_LOCK_COUNTED, self as *const Self as *const () as usize);
-            self.to_wake
-                .pop()
-                .map(|w| self.unpark_one(&w))
-                .expect("got null blocker!");
+            let w = self.to_wake.pop().expect("got null blocker!");
+            if self.unpark_one(&w) {
+                self.unlock();
+            }
         }
         #[cfg(may_verif)]
         may_queue::verif::point(may_queue::verif::site::MUTEX_LOCK_COUNTED, self as *const Self as *const () as usize);
@@ -141,23 +141,25 @@ impl<T: ?Sized> Mutex<T> {
         }
     }
 
-    fn unpark_one(&self, w: &SyncBlocker) {
+    // wake up the waiter that gets the lock; true if it had given up meanwhile
+    // (cancel) and hands the lock back
+    fn unpark_one(&self, w: &SyncBlocker) -> bool {
         w.unpark();
         #[cfg(may_verif)]
         may_queue::verif::point(may_queue::verif::site::MUTEX_UNPARKED, self as *const Self as *const () as usize);
-        if w.take_release() {
-            self.unlock();
-        }
+        w.take_release()
     }
 
     fn unlock(&self) {
-        if self.cnt.fetch_sub(1, Ordering::SeqCst) > 1 {
+        // every waiter that has given up passes the lock on to the next one: a loop,
+        // as a recursion its depth would be the number of such waiters in a row
+        while self.cnt.fetch_sub(1, Ordering::SeqCst) > 1 {
             #[cfg(may_verif)]
             may_queue::verif::point(may_queue::verif::site::MUTEX_UNLOCK_SUBBED, self as *const Self as *const () as usize);
-            self.to_wake
-                .pop()
-                .map(|w| self.unpark_one(&w))
-                .expect("got null blocker!");
+            let w = self.to_wake.pop().expect("got null blocker!");
+            if !self.unpark_one(&w) {
+                break;
+            }
         }
     }
 
